@@ -179,6 +179,17 @@ PROPS["C09"] = dict(
     assumptions=["a wall-clock budget of 20 s per call is only used to turn a hang into a recorded case; hitting it is reported with the case (never seen on the pinned tree)"],
     jobs=[job("graphs", "^TestTypeGraphs$", (4, 16), (2500, 25000), (900, 3000))],
 )
+PROPS["C16"] = dict(
+    pkg="c16", level="exploration",
+    technique="model-based testing: the expected AST projection is computed from the generator's abstract schema and compared field by field with GetAST over many printed spellings",
+    level_text=("Bounded exploration: for generated schemas (ruled plain-JSON trees, rule-free shapes, type graphs with references / or / allOf / key shortcuts) printed in varying styles (LF/CRLF/CR, inline "
+                "or multi-line annotations, quoted names, trailing comma, user comments), GetAST is compared with the projection the statement lists, computed from the model alone: key and shortcut flag, "
+                "token kind, literal value, schema type by enum > or > type > precision > kind, rules as written (names, order, values, nested enum/or/allOf items), notes, generated vs manual marks, no inherited properties."),
+    level_note="trusted: harness/ref/ast.go and the printer; fields the statement does not mention are not compared",
+    rule=("schemas from three generator families x printer styles; non-trivial = >=3 nodes and at least one of {>=2 rules on a node, enum/or/allOf, type shortcut, key shortcut, note}; distinct by printed spec"),
+    assumptions=["the printer emits what the model says (the same printer feeds C01-C04, whose verdict oracles would expose a disagreement)"],
+    jobs=[job("ast", "^TestAST$", (4, 16), (2500, 25000), (600, 3000))],
+)
 
 _UNBUILT = "check under construction in this session (see DESIGN.md section 5 for the planned design)"
 NOT_APPLICABLE = [dict(property_id="C%02d" % i, reason=_UNBUILT) for i in range(1, 20) if "C%02d" % i not in PROPS]
